@@ -422,10 +422,14 @@ func (s *Sess) RemoveURR(req *ie.IE) ([]report.USAReport, error) {
 	if !ok {
 		return nil, errors.Errorf("RemoveURR: URR[%#x] not found", id)
 	}
+	wasRemoved := info.removed
 	info.removed = true // remove URRInfo later
 
 	usars, err := s.rnode.driver.RemoveURR(s.LocalID, req)
 	if err != nil {
+		// the URR is still installed: keep reporting for it
+		// (unless an earlier Remove URR of this request already took it out)
+		info.removed = wasRemoved
 		return nil, err
 	}
 
